@@ -525,6 +525,9 @@ class C15(Prop):
 
             pm.connection_from_host = recording
             observed = []
+            if redirect and any(self.origin_is_proxy(mode, m) for m in items):
+                res.bump("skipped:origin-is-proxy")
+                return lines, out
             if redirect:
                 n0 = len(net.requests)
                 del last[:]
@@ -554,6 +557,9 @@ class C15(Prop):
                 for m in items:
                     if mode[0] == "p" and m["ht"] == "":
                         continue            # no host through a proxy: forwarded with the proxy's own Host (not modelled)
+                    if self.origin_is_proxy(mode, m):
+                        res.bump("skipped:origin-is-proxy")
+                        continue            # origin == proxy address: pool shared between forwarding and tunnelling (not modelled)
                     n0 = len(net.requests)
                     del last[:]
                     lines.append(self.model_line("route", m["url"]))
@@ -592,6 +598,30 @@ class C15(Prop):
             j = rest.find(":")
             h, tail = (rest, "") if j < 0 else (rest[:j], rest[j:])
         return ascii_lower(h), (int(tail[1:]) if tail[1:] else d)
+
+    def origin_is_proxy(self, mode, m):
+        """an https URL whose host and port are the https proxy's own address, to be tunnelled: the pool key
+        of the tunnelled origin pool then coincides with the key of the proxy's own pool (the one that
+        forwards http URLs), so forwarded and tunnelled requests share one pool and its idle connections —
+        connection reuse across request kinds is outside the model (and outside what the property says:
+        origin and proxy are the same server); see notes/C15.md "Domain restriction" """
+        if mode[0] != "p" or mode[2] or not mode[1].lower().startswith("https:") or m["scheme"] != "https":
+            return False
+        if m["hk"] not in ORACLE_KINDS:
+            return False
+        hx = url_host(m)
+        if hx is None:
+            return False
+        try:
+            P, _ = url_port(m, zero_as_absent=True)
+        except ValueError:
+            return False
+        ph, pp = self.proxy_addr(mode)
+        if hx["v6"]:
+            name = hx["addr"] if hx["zone"] is None else None
+        else:
+            name = hx["name"]
+        return name is not None and (name, P) == (ph, pp)
 
     def clause_failures(self, mode, m, o, hx, P, dflt, zone_alt):
         """list of (clause, detail) the observation violates, under the expectation (hx, P)"""
